@@ -349,10 +349,11 @@ class BinaryGroup(GroupNode):
     has_boost = False
 
     def query(self, parser):
-        assert len(self.nodes) == 2
-
-        qa = self.nodes[0].query(parser)
-        qb = self.nodes[1].query(parser)
+        # A side is missing if it was itself an operator that had nothing to
+        # apply to
+        nodes = self.nodes
+        qa = nodes[0].query(parser) if len(nodes) > 0 else None
+        qb = nodes[1].query(parser) if len(nodes) > 1 else None
         if qa is None and qb is None:
             q = query.NullQuery
         elif qa is None:
@@ -373,6 +374,9 @@ class Wrapper(GroupNode):
     merging = False
 
     def query(self, parser):
+        if not self.nodes:
+            # The wrapped node was an operator that had nothing to apply to
+            return None
         q = self.nodes[0].query(parser)
         if q:
             return attach(self.qclass(q), self)
